@@ -29,11 +29,11 @@ var seedv int64
 
 type Case struct {
 	T    int    `json:"type"`
-	KeyA int    `json:"client_key"`  // key the request was created for
-	KeyB int    `json:"issuer_key"`  // key that evaluates
-	ReqI int    `json:"state_of"`    // request whose state finalizes
+	KeyA int    `json:"client_key"`   // key the request was created for
+	KeyB int    `json:"issuer_key"`   // key that evaluates
+	ReqI int    `json:"state_of"`     // request whose state finalizes
 	ReqJ int    `json:"response_for"` // request that was evaluated
-	Mut  string `json:"mutation"`    // none | bit | trunc | ext | elems | reeval
+	Mut  string `json:"mutation"`     // none | bit | trunc | ext | elems | reeval
 	Arg  int    `json:"arg,omitempty"`
 	Map  []int  `json:"element_map,omitempty"` // type 5: output position -> original element index
 	N    int    `json:"batch,omitempty"`
